@@ -522,7 +522,9 @@ def c11_i9(ctx):
                 inner_ty = " ".join(str(e.get("ty", "")) for e in pj)
                 dest_ty = st["place"].get("ty") or ""
                 if "io::" not in dest_ty or "Error" not in dest_ty or "SendError" in dest_ty:
-                    continue  # (only the io::Error a receive() reports - not the failure of the channel to the daemon)
+                    continue
+                if "PDU" not in root_ty + inner_ty:
+                    continue  # (the socket's own error in UdpTransport::receive is what receive() reports, not a helper's doing)  # (only the io::Error a receive() reports - not the failure of the channel to the daemon)
                 n += 1
                 heads = {h for h, bd, bk in loops if b in bd}
                 r = f.reachable(b, avoid=heads)
